@@ -7,10 +7,11 @@
    answer   (oof anomaly objs results leak all_closed)
             objs    = ((path id kind amap baseobj? state) ...)
             results = ((ctxpath expand resolved? spec? guard) ...), resolved = (path id kind), spec = (tag m q),
-                      guard = trail_ok (the name is inside the guard of C04_expand_sound)
+                      guard = trail_ok (the name is inside the guard of C04_expand_sound), code? = (path) result of
+                      interpreting Gen/NamesCode.v code_expand_name
    request  (1 mpath is_pkg level modname)  ->  (model? spec?)   relative-import arithmetic only *)
 From Coq Require Import ZArith NArith List Bool.
-From PydoctorVerif Require Import Base.Sexp Base.ImportSyntax Model.Names Spec.PyImport.
+From PydoctorVerif Require Import Base.Sexp Base.ImportSyntax Model.Names Spec.PyImport Model.NamesIR Gen.NamesCode.
 Import ListNotations.
 
 Definition to_path (s : sexp) : path := map to_N (to_list s).
@@ -74,8 +75,14 @@ Definition run (s : sexp) : sexp :=
                L [of_path (o_path ctx); of_path (expand_name st ctx dotted);
                   of_option (fun o => L [of_path (o_path o); of_path (o_id o); kind_code (o_kind o)])
                             (resolve_name st ctx dotted);
-                  spec; of_bool (trail_ok st ctx true dotted)]
-             | None => L [L []; L []; L []; spec; of_bool false]
+                  spec; of_bool (trail_ok st ctx true dotted);
+                  (* third leg: the body of expandName TRANSLATED from the source, interpreted *)
+                  match run_body st ctx (VStr dotted) (l2f st) (fun o n => find_member (length (objs st)) st o n)
+                            (fun _ => []) code_expand_name (S (length dotted)) with
+                  | RReturn (VStr q) => L [of_path q]
+                  | _ => L []
+                  end]
+             | None => L [L []; L []; L []; spec; of_bool false; L []]
              end) (to_list (nth_s 3 s)) in
     L [of_bool (oof st); of_bool (anomaly st); L (map obj_sexp (objs st)); L results; of_bool (leak st); of_bool (all_closed st)]
   | 1%Z =>
